@@ -21,6 +21,7 @@ type compiler struct {
 	builtinScope  *scopeinfo
 	scopes        []*scopeinfo
 	scopecnt      int
+	globalcnt     int
 	regexpCache   sync.Map
 }
 
@@ -89,6 +90,7 @@ func Compile(q *Query, options ...CompilerOption) (*Code, error) {
 		c.appendCodeInfo(name)
 		c.append(&code{op: opstore, v: c.pushVariable(name)})
 	}
+	c.globalcnt = len(scope.variables)
 	if c.moduleLoader != nil {
 		if moduleLoader, ok := c.moduleLoader.(interface {
 			LoadInitModules() ([]*Query, error)
@@ -189,16 +191,21 @@ func (c *compiler) compileImport(i *Import) error {
 func (c *compiler) compileModule(q *Query, alias string) error {
 	scope := c.scopes[len(c.scopes)-1]
 	scope.depth++
-	defer func(l int) {
+	defer func(variables []*varinfo) {
 		scope.depth--
-		scope.variables = scope.variables[:l]
-	}(len(scope.variables))
+		scope.variables = variables
+	}(scope.variables)
 	if alias != "" {
-		defer func(l int) {
-			for _, f := range scope.funcs[l:] {
+		// An imported module sees neither the functions nor the imported
+		// data of its importer, only the global variables.
+		defer func(funcs []*funcinfo) {
+			for _, f := range scope.funcs {
 				f.name = alias + "::" + f.name
 			}
-		}(len(scope.funcs))
+			scope.funcs = append(funcs, scope.funcs...)
+		}(scope.funcs)
+		scope.funcs = nil
+		scope.variables = scope.variables[:c.globalcnt:c.globalcnt]
 	}
 	for _, i := range q.Imports {
 		if err := c.compileImport(i); err != nil {
